@@ -53,19 +53,29 @@ class MS:
     def is_leaf(self):
         return self.kind == 'leaf'
 
+    # (iterative: pure-Python recursion through C helpers such as sum()/max() hits CPython's C recursion
+    #  limit long before the pytree depth limit of 1000)
     def num_leaves(self):
-        return 1 if self.is_leaf else sum(c.num_leaves() for c in self.children)
+        return sum(1 for n in self.walk() if n.is_leaf)
 
     def num_nodes(self):
-        return 1 + sum(c.num_nodes() for c in self.children)
+        return sum(1 for _ in self.walk())
 
     def depth(self):
-        return 0 if not self.children else 1 + max(c.depth() for c in self.children)
+        best = 0
+        stack = [(self, 0)]
+        while stack:
+            n, d = stack.pop()
+            best = max(best, d)
+            stack.extend((c, d + 1) for c in n.children)
+        return best
 
     def walk(self):
-        yield self
-        for c in self.children:
-            yield from c.walk()
+        stack = [self]
+        while stack:
+            n = stack.pop()
+            yield n
+            stack.extend(reversed(n.children))
 
 
 DICT_KINDS = ('dict', 'od', 'dd')
